@@ -339,6 +339,7 @@ type c04Case struct {
 	// oracle finds from then on is reported as a consequence of it
 	raceSig, raceWhy string
 	foreign          map[string]bool // receivers of doIndexing goroutines that are not this store's (present before Open)
+	failedDumps      map[string]map[uint64]bool // index path -> ids of dump folders a failed compaction left behind
 	oldErrs          []string        // errors the store logged before the last reopen
 	unsafeRestart    bool            // a restart from a dump happened while an indexing goroutine may have been inside indexSince
 }
